@@ -133,7 +133,7 @@ REGISTRY = {
         "solver runs recorded per generation and trace-validated, with twin runs for reproducibility",
         "MC_Evo: all behaviours of 2 members x 2 hall-of-fame slots x 2-3 generations with in-place mutation, insertion "
         "rule and optional selection: HofSorted, HofHonest, HofPrivate, BestMonotone. Real evolutionary / hybrid runs "
-        "(both compilers, selection / adaptive on-off, hall-of-fame sizes): same clauses with every stored circuit "
+        "(both compilers, selection / adaptive on-off, hall-of-fame sizes): HofSorted, HofHonest, BestMonotone with every stored circuit "
         "re-scored by a fresh compiler, HofFromKnown, ResultIsBest, LogsMonotone, ReproducibleInProcess and "
         "ReproducibleAcrossProcesses (fresh interpreters with other hash seeds); update_hof driven directly with synthetic "
         "populations incl. near-tied scores, judged per update (HofSorted, HofFromKnown, BestKept; agreement with the insertion rule of MC_Evo as information).",
